@@ -142,6 +142,25 @@ theorem orphans_removed (ix : Name) (old new : Toc) (tmp : Name) (fs0 : FS) (tr 
     rw [hg, hs] at hf
     simpa using hf
 
+/-- **C02.next_commit.**  `orphans_removed` and `commit` in one statement: after any crashed prefix
+    (any truncation), a later writer whose whole commit follows the protocol from the surviving
+    directory and performs the clean-up pass publishes exactly its new TOC, readable, one
+    generation on — and leaves no stale TOC and no file of an unreferenced segment.
+    (A leaked TOC temp file `_<ix>_<n>.toc.<time>` matches neither pattern: `clean_files` never
+    removes it and `Clean` does not speak about it; the property only names segment files.) -/
+theorem next_commit (ix : Name) (old new : Toc) (tmp : Name) (fs0 : FS) (tr : List Event)
+    (hc : Consistent ix old fs0) (hs : SafeCommitTrace ix old new tmp fs0 tr = true)
+    (k : Nat) (τ : Nat → Nat) (new2 : Toc) (tmp2 : Name) (tr2 : List Event) :
+    let fs1 := crash (run fs0 (tr.take k)) τ
+    CompleteCommit ix (stateAt old new tr k) new2 tmp2 fs1 tr2 = true →
+    CleansOrphans ix new2 fs1 tr2 = true →
+    readToc ix (run fs1 tr2) = .ok new2 ∧ readable (run fs1 tr2) new2 = true ∧
+    new2.gen = (stateAt old new tr k).gen + 1 ∧ Clean ix new2 (run fs1 tr2) := by
+  intro fs1 hcc hcl
+  obtain ⟨hcons, hclean⟩ := orphans_removed ix old new tmp fs0 tr hc hs k τ
+  obtain ⟨r1, r2, r3⟩ := commit ix _ new2 tmp2 fs1 tr2 hcons hcc
+  exact ⟨r1, r2, r3, hclean new2 tr2 hcl⟩
+
 /-- **C02.pattern.**  The temp name `"%s.%s" % (tocfilename, time())` is never matched by the TOC
     pattern (whatever follows the dot), while the final name is, with its own generation; the lock
     file and the temp-storage directory are never matched by the segment pattern. -/
@@ -224,6 +243,30 @@ example : readToc ix (crash (run fs0 (tr.take 6)) fun _ => 3) = .ok tocOld :=
   (crash_atomic ix tocOld tocNew tmpN fs0 tr consistent0 (by decide) 6 _).2.1
 example : readToc ix (crash (run fs0 (tr.take 8)) fun _ => 0) = .ok tocNew :=
   (crash_atomic ix tocOld tocNew tmpN fs0 tr consistent0 (by decide) 8 _).2.1
+
+/-! junk left by a crash is really deleted by the next commit: the writer of `tr` dies after
+writing (and not closing) its segment file; the next writer commits another segment and its
+clean-up pass removes the torn orphan -/
+def fsCrashed : FS := crash (run fs0 (tr.take 2)) fun _ => 40
+def segFile2 : Name := ['M', '_', 'b', '.', 's', 'e', 'g']
+def tocNew2 : Toc := ⟨1, 0, [⟨['M', '_', 'b'], [segFile2], []⟩]⟩
+def tmpN2 : Name := ['_', 'M', '_', '1', '.', 't', 'o', 'c', '.', '8']
+def tr2 : List Event :=
+  [.create segFile2, .write segFile2 70, .close segFile2,
+   .create tmpN2, .setToc tmpN2 tocNew2, .write tmpN2 50, .close tmpN2,
+   .rename tmpN2 toc1, .delete toc0, .delete segFile]
+
+/-- the orphan is there after the crash (torn, 40 of its 100 bytes) … -/
+example : (fsCrashed.file? segFile).map (fun d => (d.len, d.st)) = some (40, .torn) := by decide
+example : CompleteCommit ix tocOld tocNew2 tmpN2 fsCrashed tr2 = true := by decide
+example : CleansOrphans ix tocNew2 fsCrashed tr2 = true := by decide
+/-- … and gone after the next commit, which `next_commit` says for every such trace -/
+example : (run fsCrashed tr2).listing.contains segFile = false := by decide
+example : Clean ix tocNew2 (run fsCrashed tr2) :=
+  (next_commit ix tocOld tocNew tmpN fs0 tr consistent0 (by decide) 2 (fun _ => 40) tocNew2 tmpN2 tr2
+    (by decide) (by decide)).2.2.2
+/-- without the clean-up pass the predicate says no (and the orphan would stay) -/
+example : CleansOrphans ix tocNew2 fsCrashed (tr2.take 9) = false := by decide
 
 end Example
 
